@@ -244,6 +244,13 @@ class Lanes:
         if mn in asmint.JCC or mn.startswith('loop') or mn in ('jrcxz', 'jecxz'):
             t = _target(ins)
             return [nxt] + ([t] if t is not None else [])
+        if mn == 'lea' and len(ops) == 2 and ops[0].strip() in asmint.GPR64:
+            mm = parse_mem(ops[1])
+            if mm and mm.get('base') and not mm.get('index') and mm.get('disp') is not None:
+                tb = g.get(SUB.get(mm['base'], mm['base']))
+                if tb == 'A0' or (isinstance(tb, tuple) and tb[0] == 'AO'):
+                    g[ops[0].strip()] = ('AO', (tb[1] if isinstance(tb, tuple) else 0) + mm['disp'])
+                    return [nxt]
         if mn == 'call':
             if g.get('rdi') == 'A0':
                 tgt = ins.get('reloc') or self.labels_at(_target(ins))
@@ -319,6 +326,15 @@ class Lanes:
                 b = SUB.get(m['base'], m['base']) if m.get('base') else None
                 t = g.get(b) if b else None
                 val = self.vget(v, ops[-1])
+                # a whole vector of per-lane pointers written back: it goes where it was loaded from (same array, same elements)
+                pa = v.get(('pa', vnum(ops[-1].split('{')[0].strip())))
+                if (t == 'A0' or (isinstance(t, tuple) and t[0] == 'AO')) and not m.get('index') and pa is not None:
+                    fo = self.field_of((m.get('disp') or 0) + (t[1] if isinstance(t, tuple) else 0))
+                    if fo:
+                        self.checked_ptr_stores += 1
+                        if fo != pa:
+                            self.findings.append((ins['a'], 'ptr', 'a vector of per-lane pointers loaded from %s[%d..] is written to %s[%d..] (%s)' % (
+                                pa[0], pa[1], fo[0], fo[1], ins['txt'])))
                 if isinstance(t, tuple) and t[0] == 'LP' and val is not None:
                     n = slots_of(ops[-1])
                     lanes = set()
@@ -331,6 +347,26 @@ class Lanes:
             return [nxt]
         # ---- vector destinations
         if dv is not None:
+            # pointer-array provenance: a load of (or an element-wise 64-bit add to) consecutive elements of a per-lane pointer array of A0
+            pa_new = None
+            if re.match(r'^v?(mov(dq[au](8|16|32|64)?|[au]p[sd])|paddq)$', mn):
+                memops = [o.split('{')[0].strip() for o in ops[1:] if '[' in o]
+                regsrc = [vnum(o.split('{')[0].strip()) for o in ops[1:] if vnum(o.split('{')[0].strip()) is not None]
+                if len(memops) == 1:
+                    mm = parse_mem(memops[0])
+                    tb = g.get(SUB.get(mm['base'], mm['base'])) if mm and mm.get('base') and not mm.get('index') else None
+                    if tb == 'A0' or (isinstance(tb, tuple) and tb[0] == 'AO'):
+                        pa_new = self.field_of((mm.get('disp') or 0) + (tb[1] if isinstance(tb, tuple) else 0))
+                elif not memops and 'paddq' in mn and len(regsrc) == 2:
+                    cands = [v.get(('pa', r_)) for r_ in regsrc if v.get(('pa', r_)) is not None]
+                    if len(cands) == 1:
+                        pa_new = cands[0]
+                elif not memops and 'mov' in mn and len(regsrc) == 1:
+                    pa_new = v.get(('pa', regsrc[0]))
+            if pa_new is not None:
+                v[('pa', dv)] = pa_new
+            else:
+                v.pop(('pa', dv), None)
             srcs_ops = ops[1:]
             imm = None
             if srcs_ops and _imm(srcs_ops[-1]) is not None:
